@@ -16,10 +16,87 @@ def configs(tier, seed):
     # "a nested body / its callees run only with the enclosing body" is this property as well
     from . import c12
 
-    return systematic_configs(SCHEDULERS, family="relations") + systematic_configs(SCHEDULERS) + c12.deep_configs(tier) + batch_configs(tier, seed, 40, 400, 12 if tier == "quick" else 25, OPTS, SCHEDULERS)
+    condval = [dict(condval=how, nonblocking=nb) for how in ("plain", "if", "enable") for nb in (False, True)]
+    return condval + systematic_configs(SCHEDULERS, family="relations") + systematic_configs(SCHEDULERS) + c12.deep_configs(tier) + batch_configs(tier, seed, 40, 400, 12 if tier == "quick" else 25, OPTS, SCHEDULERS)
+
+
+def _make_condval(how, nonblocking):
+    """a transaction calls `outer` (plainly / under m.If(en) / with enable_call=en); outer's condition() branch (condition c) calls the
+    method v(x) which is defined with validate_arguments (x != 0) and has a free readiness."""
+    from amaranth import Elaboratable, Signal
+    from transactron import TModule, Transaction, Method, def_method
+    from transactron.lib.simultaneous import condition
+    from ..harness import Harness
+
+    class D(Elaboratable):
+        def __init__(self):
+            self.req, self.en, self.c, self.vready = Signal(name="req"), Signal(name="en"), Signal(name="c"), Signal(name="vready")
+            self.arg, self.seen = Signal(2, name="arg"), Signal(2, name="seen")
+            self.o = {n: Signal(name="o_" + n) for n in ("caller", "outer", "branch", "v")}
+
+        def elaborate(self, platform):
+            m = TModule()
+            keep = Signal(name="_keep_sync")
+            m.d.sync += keep.eq(1)
+            outer, v = Method(name="outer"), Method(name="v", i=[("x", 2)])
+
+            @def_method(m, v, ready=self.vready, validate_arguments=lambda x: x != 0)
+            def _(x):
+                m.d.comb += [self.o["v"].eq(1), self.seen.eq(x)]
+
+            @def_method(m, outer)
+            def _():
+                m.d.comb += self.o["outer"].eq(1)
+                with condition(m, nonblocking=nonblocking) as branch:
+                    with branch(self.c):
+                        m.d.comb += self.o["branch"].eq(1)
+                        v(m, x=self.arg)
+
+            with Transaction(name="caller").body(m, ready=self.req):
+                m.d.comb += self.o["caller"].eq(1)
+                if how == "if":
+                    with m.If(self.en):
+                        outer(m)
+                elif how == "enable":
+                    outer(m, enable_call=self.en)
+                else:
+                    outer(m)
+            return m
+
+    d = D()
+    obs = dict(d.o)
+    obs["seen"] = d.seen
+    return Harness(d, {}, inputs=dict(req=d.req, en=d.en, c=d.c, vready=d.vready, arg=d.arg), observe=lambda d: obs)
+
+
+def _run_condval(cfg, ctx):
+    import z3
+    from ..harness import Built
+    from ..seq import Unroll
+
+    how, nb = cfg["condval"], cfg["nonblocking"]
+    tag = f"validate_arguments behind a condition() branch, outer called {how}, {'non' if nb else ''}blocking condition: "
+    b = Built(lambda: _make_condval(how, nb))  # a combinational cycle would make netlist construction fail here (harness error)
+    u = Unroll(b, free_init=True)
+    o = u.cycle()
+    ctx.frames += 1
+    B = lambda n: o.sig(n) == 1
+    en = B("en") if how != "plain" else z3.BoolVal(True)
+    valid = o.sig("arg") != 0
+    ctx.witness(tag + "the validated method runs", [B("v")])
+    ctx.witness(tag + "the caller runs without the call" if how != "plain" else tag + "the caller runs", [B("caller")] + ([z3.Not(en)] if how != "plain" else []))
+    ctx.prove(tag + "the caller runs only when requested", [], z3.Implies(B("caller"), B("req")), u)
+    ctx.prove(tag + "outer runs iff the caller runs and the call is enabled", [], B("outer") == z3.And(B("caller"), en), u)
+    ctx.prove(tag + "the branch runs only with outer, and exactly when its condition holds then", [], B("branch") == z3.And(B("outer"), B("c")), u)
+    ctx.prove(tag + "the validated method runs exactly when the branch runs and sees its argument", [], z3.And(B("v") == B("branch"), z3.Implies(B("v"), o.sig("seen") == o.sig("arg"))), u)
+    ctx.prove(tag + "C03 the validated method runs only when it is ready and its argument is valid", [], z3.Implies(B("v"), z3.And(B("vready"), valid)), u)
+    if nb:
+        ctx.prove(tag + "with a non-blocking condition a false branch condition does not block the caller", [B("req"), z3.Not(B("c")), B("vready")], B("caller"), u)
 
 
 def run(cfg, ctx):
+    if "condval" in cfg:
+        return _run_condval(cfg, ctx)
     if cfg.get("deep"):
         from . import c12
 
